@@ -149,7 +149,12 @@ class Recorder:
         @functools.wraps(o_ind)
         def w_ind(self, current_density, A_induced_vals, velocity):
             A_prev = _copy(A_induced_vals[-1])
+            buf = getattr(self, "new_A_induced", None)
+            if isinstance(buf, np.ndarray):
+                buf[...] = np.nan  # the solver's kernel output buffer is write-only: every row must be written by this call
             out = o_ind(self, current_density, A_induced_vals, velocity)
+            if isinstance(buf, np.ndarray) and np.all(np.isfinite(np.asarray(current_density))):
+                rec.emit("on_induced_buffer", rec.cur, int(np.isnan(buf).any(axis=1).sum()), len(buf))
             if rec.cur is not None:
                 rec.cur["screen_iters"] += 1
             rec.emit("on_induced", rec.cur, current_density, A_prev, out)
